@@ -69,3 +69,14 @@ Theorem C03_source_staleness_test : forall is_expired max_stale v now at_,
     Some (if fresh_enough_impl max_stale now at_ then (Some v, true) else (None, false)).
 Proof. intros; split; [exact (tie_fresh_enough_of _ _ _ _ _)|exact (tie_value_from_error _ _ _ _)]. Qed.
 Print Assumptions C03_source_staleness_test.
+
+From Cache Require Import TieGet.
+
+(* Failover.Get and FailoverOf.Get follow the model's single-thread path on every one of the 7680 combinations of
+   configuration and call-out outcomes: same reads, stale re-store, failure-cache hit, build (before or after the
+   return), warning, returned and published (value, error), election and release inside f.lock, key copy before a
+   background build — here: the whole decision path of a lone Get *)
+Theorem C03_source_get_follows_model : forall i,
+  src_obs Failover.Legacy i = Some (model_obs Failover.Legacy i) /\ src_obs Failover.Generic i = Some (model_obs Failover.Generic i).
+Proof. intros i; split; [exact (tie_get_legacy i)|exact (tie_get_generic i)]. Qed.
+Print Assumptions C03_source_get_follows_model.
